@@ -76,6 +76,12 @@ Definition resolve_binary (l r : vname) : vname :=
 Definition t_scalar (ns : tnames) : tnames :=
   let result_cols := map v_binop_scalar ns in
   t_of (map fst (combine ns result_cols)).
+(* scalar (op) table.  Table defines no reflected operators, so 2 * t runs Vector.__rmul__:
+   every column goes through _elementwise_operation and comes back unnamed, and nothing restores
+   the names (finding NEW-C18-1).  [routed] = the reflected operators go through
+   _table_elementwise_operation like table (op) scalar (candidate fix). *)
+Definition t_rscalar (routed : bool) (ns : tnames) : tnames :=
+  if routed then t_scalar ns else t_of (map v_binop_scalar ns).
 (* table (op) table of equal width *)
 Definition t_table (l r : tnames) : tnames :=
   t_of (map (fun p => resolve_binary (fst p) (snd p)) (combine l r)).
@@ -131,6 +137,7 @@ Fixpoint uniquify_all (used : list str) (names : list str) : list str :=
 
 Section WithReserved.
 Variable reserved : list str.
+Variable rscalar_routed : bool.      (* which of the two reflected-operator variants (see t_rscalar) *)
 
 (* col._name or "key": None and "" are falsy *)
 Definition key_base (n : vname) : str :=
@@ -173,6 +180,7 @@ with texpr :=
 | TColSlice (a b : nat) (t : texpr)             (* t[:, a:b] *)
 | TJoin (j : jkind) (no_match : bool) (t u : texpr)
 | TScalar (t : texpr)                           (* t + 2 *)
+| TRScalar (t : texpr)                          (* 2 * t, 2 - t *)
 | TTable (t u : texpr)                          (* t + u *)
 | TCmpS (t : texpr)                             (* t == 2 *)
 | TAgg (window : bool) (keys : list nat) (aggs : list (list nat)) (apply : list str) (t : texpr).
@@ -202,6 +210,7 @@ with eval_t (e : texpr) : tnames :=
   | TColSlice a b t => t_colslice a b (eval_t t)
   | TJoin j nm t u => join_names j nm (eval_t t) (eval_t u)
   | TScalar t => t_scalar (eval_t t)
+  | TRScalar t => t_rscalar rscalar_routed (eval_t t)
   | TTable t u => t_table (eval_t t) (eval_t u)
   | TCmpS t => t_compare_scalar (eval_t t)
   | TAgg w keys aggs apply t =>
